@@ -77,22 +77,37 @@ def run_program(mode, bufsize, ops, initial=INITIAL, loop=None, pipelined=False)
 def random_ops(rng, n, mode):
     ops = []
     for _ in range(n):
-        k = rng.choice(["read", "read", "readline", "write", "write", "seek", "seek", "tell", "flush"])
+        k = rng.choice(["read", "read", "readline", "write", "write", "seek", "seek", "tell", "flush", "truncate"])
+        if k == "truncate" and (mode == "r" or "a" in mode):
+            # this harness's server changes the size through the path, so it would allow it on a read-only handle (a real
+            # server does not); in append mode paramiko's cached end-of-file position is documented as approximate
+            k = "tell"
         if k == "read":
             ops.append(("read", rng.choice([0, 1, 5, 100, 1000, 5000])))
         elif k == "readline":
             ops.append(("readline", rng.choice([None, None, 10, 2000])))
         elif k == "write":
             ops.append(("write", bytes([65 + rng.randrange(26)]) * rng.choice([1, 3, 50, 900])))
+        elif k == "truncate":
+            ops.append(("truncate", rng.choice([0, 5, 700, 2999, 3500])))
         elif k == "seek":
             wh = rng.choice([0, 0, 1, 2])
             ops.append(("seek", rng.choice([0, 5, 100, 2999, 3500]) if wh == 0 else rng.choice([0, 3, -3, 40, -40]) if wh == 1 else rng.choice([0, -1, -100]), wh))
         else:
             ops.append((k,))
-    return ops
+    # a read straight after a buffered write is the listed known finding; the programs generated here flush in between
+    out = []
+    for op in ops:
+        # (and in append mode a local file's tell() straight after a buffered write is the pre-append position plus the
+        # data length - an artefact of CPython's buffering that no file position ever corresponds to: flush first)
+        if (op[0] in ("read", "readline") or (op[0] == "tell" and "a" in mode)) and any(o[0] == "write" for o in out) and \
+                next(o for o in reversed(out) if o[0] in ("write", "flush", "seek"))[0] == "write":
+            out.append(("flush",))
+        out.append(op)
+    return out
 
 
-def guarded(mode, bufsize, ops, pipelined=False, secs=10):
+def guarded(mode, bufsize, ops, pipelined=False, secs=60):
     """run one program on a fresh client/server pair, giving up (and reporting a hang) after secs seconds"""
     import threading
     res = {}
@@ -130,3 +145,63 @@ def fuzz(inp):
             if d:
                 bad.append({"mode": mode, "bufsize": bufsize, "pipelined": pipelined, "ops": repr(ops)[:400], "diff": d[0]})
     return {"violates": bool(bad), "evaluations": n, "detail": bad[:40]}
+
+
+BATTERY = [
+    # write after a buffered read: the data belongs where read() stopped
+    ("r+", 8192, [("read", 10), ("tell",), ("write", b"X"), ("seek", 0, 0), ("read", 20)]),
+    ("r+", 0, [("readline", None), ("tell",), ("write", b"F"), ("readline", None)]),
+    ("a+", 64, [("seek", 0, 0), ("readline", None), ("write", b"ZZ"), ("flush",), ("tell",), ("read", 5), ("tell",)]),
+    # tell() counts data still in the write buffer
+    ("r+", 64, [("write", b"T"), ("tell",)]),
+    ("a", 64, [("write", b"BBB"), ("tell",)]),
+    ("w+", 2, [("seek", 0, 0), ("write", b"W" * 900), ("tell",)]),
+    # (a read straight after a buffered write, with no flush or seek in between, is the listed known finding: see
+    #  read_after_buffered_write below; programs here flush first)
+    ("r+", 8192, [("write", b"QQQ"), ("flush",), ("readline", 2000)]),
+    ("r+", 64, [("read", 10), ("write", b"X"), ("flush",), ("read", 5), ("tell",)]),
+    # a position before the start of the file is refused
+    ("w+", -1, [("seek", -3, 1), ("tell",)]),
+    ("r", -1, [("seek", -1, 0), ("tell",)]),
+    ("r+", 0, [("seek", 5, 0), ("seek", -40, 1), ("tell",), ("read", 3)]),
+    ("w", 1, [("seek", -1, 2), ("tell",)]),
+    # truncate acts on the file as the caller sees it: buffered writes first, no read-ahead from before kept
+    ("r+", -1, [("readline", 10), ("truncate", 12), ("read", 5), ("tell",)]),
+    ("r+", 8192, [("read", 10), ("truncate", 12), ("read", 5)]),
+    ("w+", 64, [("write", b"ABCDEF"), ("truncate", 2), ("seek", 0, 0), ("read", 10)]),
+    # plain sequential use
+    ("r", -1, [("read", 100), ("readline", None), ("tell",), ("seek", 2999, 0), ("read", 10), ("read", 10)]),
+    ("w", -1, [("write", b"abc"), ("write", b"def"), ("tell",), ("seek", 1, 0), ("write", b"Z"), ("tell",)]),
+    ("a", 0, [("tell",), ("write", b"R"), ("tell",), ("seek", 0, 0), ("write", b"S"), ("tell",)]),
+]
+
+
+def replay_programs(inp):
+    """the fixed battery above plus seeded random programs (modes r, r+, w, w+, a, a+; bufsize -1, 0, 1, 2, 64, 8192, 65536;
+    pipelined or not), each on a fresh client / server pair, return values and final contents compared with a local file"""
+    rng = random.Random(ival(inp, "seed", 1))
+    progs = [(m, b, ops, False) for m, b, ops in BATTERY]
+    for _ in range(ival(inp, "programs", 60 if inp.get("tier") == "thorough" else 6)):
+        mode = rng.choice(["r", "r+", "w", "w+", "a", "a+"])
+        progs.append((mode, rng.choice([-1, 0, 1, 2, 64, 8192, 65536]), random_ops(rng, rng.randrange(1, 12), mode), rng.random() < 0.3))
+    bad = []
+    for mode, bufsize, ops, pipelined in progs:
+        d = guarded(mode, bufsize, ops, pipelined)
+        if d:
+            bad.append({"mode": mode, "bufsize": bufsize, "pipelined": pipelined, "ops": repr(ops)[:300], "diff": d[0]})
+    return {"violates": bool(bad), "evaluations": len(progs), "detail": bad[:6]}
+
+
+def _finding(mode, bufsize, ops):
+    d = guarded(mode, bufsize, ops)
+    return {"violates": bool(d), "detail": d}
+
+
+def read_after_buffered_write(inp):
+    """known finding: data written with buffering on is not flushed before a read() that follows"""
+    return _finding("r+", 64, [("read", 10), ("write", b"X"), ("read", 5), ("tell",)])
+
+
+def readline_after_buffered_write(inp):
+    """known finding: data written with buffering on is not flushed before a readline() that follows"""
+    return _finding("r+", 8192, [("write", b"QQQ"), ("readline", 2000)])
